@@ -1661,6 +1661,19 @@ func init() {
 						continue
 					}
 					closure := append([]*ssa.Function{r}, prog.Closures(r)...)
+					// helpers of the same package that work on the row (they take a *SnapshotInfo), called synchronously
+					for g := range x.closureOf([]*ssa.Function{r}, []string{strings.TrimPrefix(prog.PkgOf(r), prog.Mod+"/")}) {
+						if g == r {
+							continue
+						}
+						for _, pm := range g.Params {
+							if pt, isP := pm.Type().(*types.Pointer); isP && namedOf(pt) != nil && namedOf(pt).Obj().Name() == "SnapshotInfo" {
+								closure = append(closure, g)
+								closure = append(closure, prog.Closures(g)...)
+								break
+							}
+						}
+					}
 					loads := false
 					for _, g := range closure {
 						for _, b := range g.Blocks {
